@@ -31,6 +31,11 @@ def _single(t):
     return [t[0], t[1], a]
 
 
+def _elem(t):
+    """the type of ONE member of an array whose element type carries occurrence bounds of its own"""
+    return _single(t) if t[0] in ('p', 'c', 'e') else t
+
+
 INT_NAMES = set(n for n, x in xsdlex.XS_OF.items() if x in xsdlex.INT_RANGES)
 
 
@@ -64,7 +69,7 @@ class DictCodec(object):
         if k == 'e':
             return v
         if k == 'a':
-            return [self.enc(t[1], x) for x in v]
+            return [self.enc(_elem(t[1]), x) for x in v]
         if k == 'c':
             fields = self.b.flat_fields(v.cls)
             if self.as_list:
@@ -139,7 +144,7 @@ class DictCodec(object):
         if k == 'a':
             if not isinstance(d, (list, tuple)):
                 raise DecodeError('expected a list for an array, got %r' % (d,))
-            return [self.dec(t[1], x) for x in d]
+            return [self.dec(_elem(t[1]), x) for x in d]
         if k == 'c':
             cname = t[1]
             if not self.iw and not (self.as_list and isinstance(d, (list, tuple))):
